@@ -9,9 +9,13 @@ package c18
 //   - corrupts one chosen response (kind, occurrence) with one mutation.
 
 import (
+	"crypto/sha256"
+	"encoding/hex"
 	"encoding/json"
 	"fmt"
+	"net"
 	"net/http"
+	"net/http/httptest"
 	"net/url"
 	"strconv"
 	"strings"
@@ -21,6 +25,9 @@ import (
 )
 
 const lfsPrefix = "/r/info/lfs"
+
+// emptyTransfer in srvCfg.TransferSeq: the response carries "transfer": "" (member present, empty string)
+const emptyTransfer = `""`
 
 type fault struct {
 	Status     int
@@ -49,6 +56,18 @@ type srvCfg struct {
 	Faults        map[string][]fault // kind (batch|storage|verify|lock-*) -> answers for the first requests of that kind
 	RequireAuth   bool
 
+	// transfer-adapter sequences (part transfer-seq)
+	TransferSeq   []string          // transfer named by batch response i is TransferSeq[min(i, len-1)] ("-" = member omitted); nil: Transfer applies
+	PerRespHref   bool              // every action href carries b=<index of the batch response>: hrefs are unique per response
+	FailRespStore map[int]int       // storage requests on hrefs of batch response i are answered with this status ...
+	FailRespOn    string            // ... "first": every storage request; "data": only the request that carries the object (PUT / PATCH / GET), a tus HEAD passes
+	TusData       map[string][]byte // oid -> content (the server pretends to hold the first TusOffset[oid] bytes of an interrupted tus upload)
+	TusOffset     map[string]int64  // oid -> Upload-Offset answered to a tus HEAD (absent: 0)
+
+	// URL rewriting (part rewrite)
+	Mirror          bool // serve the same fake under a second listener (the <base> of url.<base>.insteadOf rules)
+	FixedHrefPrefix bool // action hrefs always name the primary listener and lfsPrefix, whatever URL the batch request arrived at
+
 	// locks
 	Locks      []lockRec
 	PageSize   int
@@ -74,6 +93,9 @@ type c18srv struct {
 	nlock int
 	toolErr string
 	cursors map[string]int // token -> index
+	mirror       *httptest.Server // second listener (nil unless cfg.Mirror)
+	MirrorURL    string
+	respTransfer map[int]string // index of the batch response -> transfer protocol it named ("basic" when omitted)
 }
 
 func newSrv(cfg srvCfg, facts *scenarioFacts) *c18srv {
@@ -84,20 +106,52 @@ func newSrv(cfg srvCfg, facts *scenarioFacts) *c18srv {
 	if facts.ServerIDs == nil {
 		facts.ServerIDs = map[string]bool{}
 	}
+	if facts.TusOffsets == nil {
+		facts.TusOffsets = map[string]map[int64]bool{}
+	}
 	facts.LFSPrefix = lfsPrefix
+	s.respTransfer = map[int]string{}
 	s.Server.WithVerify = cfg.Verify
 	s.Server.Hook = s.hook
 	s.Server.BatchHook = s.batchHook
+	if cfg.Mirror {
+		s.mirror = httptest.NewUnstartedServer(s.Server.Handler())
+		l, err := net.Listen("tcp4", "127.0.0.1:0")
+		if err != nil {
+			panic(err)
+		}
+		s.mirror.Listener = l
+		s.mirror.Start()
+		s.MirrorURL = s.mirror.URL
+	}
 	return s
+}
+
+func (s *c18srv) Close() {
+	if s.mirror != nil {
+		s.mirror.Close()
+	}
+	s.Server.Close()
 }
 
 func (s *c18srv) lfsURL() string { return s.URL + lfsPrefix }
 
+// apiPrefixes: the path prefixes under which the LFS API can legitimately be addressed: the configured lfs.url, and what the
+// url.<base>.insteadOf rules of part rewrite make of it (git-lfs resolves lfs.url through those rules whatever lfs.transfer.enablehrefrewrite says).
+var apiPrefixes = []string{lfsPrefix, "/mi" + lfsPrefix, "/mp" + lfsPrefix, "/mi", "/mp"}
+
 func classifyC18(method, path string) string {
-	if !strings.HasPrefix(path, lfsPrefix+"/") {
-		return "other"
+	for _, p := range apiPrefixes {
+		if strings.HasPrefix(path, p+"/") {
+			if k := classifyRest(method, strings.TrimPrefix(path, p)); k != "other" {
+				return k
+			}
+		}
 	}
-	rest := strings.TrimPrefix(path, lfsPrefix)
+	return "other"
+}
+
+func classifyRest(method, rest string) string {
 	switch {
 	case rest == "/objects/batch":
 		return "batch"
@@ -165,7 +219,94 @@ func (s *c18srv) hook(fs *fakelfs.Server, w http.ResponseWriter, r *http.Request
 		s.serveLocks(w, r, kind, rec.Body)
 		return true
 	}
+	if fkind == "storage" && s.cfg.PerRespHref {
+		return s.serveStorageOfResponse(w, r, rec.Body)
+	}
 	return false
+}
+
+// serveStorageOfResponse answers a storage request whose href names the batch response that offered it (b=<index>): injected
+// per-response failures, and the tus.io core protocol (HEAD -> Upload-Offset, PATCH application/offset+octet-stream) on the
+// hrefs of responses that named tus.  Everything else is left to fakelfs (GET / PUT).
+func (s *c18srv) serveStorageOfResponse(w http.ResponseWriter, r *http.Request, body []byte) bool {
+	idx, err := strconv.Atoi(r.URL.Query().Get("b"))
+	if err != nil {
+		return false
+	}
+	s.mu.Lock()
+	proto, known := s.respTransfer[idx]
+	s.mu.Unlock()
+	if !known {
+		return false
+	}
+	fail := func(st int, msg string) bool {
+		if r.Method == "HEAD" { // no body in the answer to a HEAD
+			w.WriteHeader(st)
+			return true
+		}
+		writeBody(w, st, []byte(fmt.Sprintf(`{"message":%q}`, msg)))
+		return true
+	}
+	if st, ok := s.cfg.FailRespStore[idx]; ok && (s.cfg.FailRespOn != "data" || r.Method != "HEAD") {
+		return fail(st, fmt.Sprintf("injected storage fault %d", st))
+	}
+	if r.Method != "HEAD" && r.Method != "PATCH" {
+		return false
+	}
+	if proto != "tus" {
+		// this href was not offered for tus: the storage endpoint does not speak it
+		w.Header().Set("Allow", "GET, PUT")
+		return fail(405, "method not allowed")
+	}
+	p := r.URL.Path
+	oid := p[strings.LastIndex(p, "/storage/")+len("/storage/"):]
+	data := s.cfg.TusData[oid]
+	have, _ := s.Server.Get(oid)
+	off := s.cfg.TusOffset[oid]
+	if have != nil {
+		off = int64(len(have))
+	}
+	if off > int64(len(data)) {
+		off = int64(len(data))
+	}
+	w.Header().Set("Tus-Resumable", "1.0.0")
+	if r.Method == "HEAD" {
+		s.mu.Lock()
+		key := "http://" + r.Host + r.RequestURI
+		if s.facts.TusOffsets[key] == nil {
+			s.facts.TusOffsets[key] = map[int64]bool{}
+		}
+		s.facts.TusOffsets[key][off] = true
+		s.mu.Unlock()
+		w.Header().Set("Upload-Offset", strconv.FormatInt(off, 10))
+		w.Header().Set("Upload-Length", strconv.Itoa(len(data)))
+		w.Header().Set("Cache-Control", "no-store")
+		w.WriteHeader(200)
+		return true
+	}
+	// PATCH
+	got, err := strconv.ParseInt(r.Header.Get("Upload-Offset"), 10, 64)
+	if err != nil || got != off {
+		writeBody(w, 409, []byte(`{"message":"tus: Upload-Offset does not match the current offset"}`))
+		return true
+	}
+	if r.Header.Get("Content-Type") != "application/offset+octet-stream" {
+		writeBody(w, 415, []byte(`{"message":"tus: PATCH needs Content-Type application/offset+octet-stream"}`))
+		return true
+	}
+	full := append(append([]byte{}, data[:off]...), body...)
+	h := sha256.Sum256(full)
+	if hex.EncodeToString(h[:]) != oid {
+		writeBody(w, 422, []byte(`{"message":"tus: content does not hash to oid"}`))
+		return true
+	}
+	s.Server.Lock()
+	s.Server.Objects[oid] = full
+	s.Server.PutCount[oid]++
+	s.Server.Unlock()
+	w.Header().Set("Upload-Offset", strconv.Itoa(len(full)))
+	w.WriteHeader(204)
+	return true
 }
 
 // finish applies the configured corruption to a nominal response tree and returns the bytes to send.
@@ -219,13 +360,20 @@ func (s *c18srv) batchHook(fs *fakelfs.Server, breq *fakelfs.BatchRequest, resp 
 	idx := s.resp["batch"]
 	s.mu.Unlock()
 	c := &s.cfg
-	switch c.Transfer {
+	trf := c.Transfer
+	if len(c.TransferSeq) > 0 {
+		trf = c.TransferSeq[len(c.TransferSeq)-1]
+		if idx < len(c.TransferSeq) {
+			trf = c.TransferSeq[idx]
+		}
+	}
+	switch trf {
 	case "":
 		resp.Transfer = "basic"
-	case "-":
+	case "-", emptyTransfer:
 		resp.Transfer = ""
 	default:
-		resp.Transfer = c.Transfer
+		resp.Transfer = trf
 	}
 	resp.HashAlgo = c.HashAlgo
 	for _, o := range resp.Objects {
@@ -243,6 +391,14 @@ func (s *c18srv) batchHook(fs *fakelfs.Server, breq *fakelfs.BatchRequest, resp 
 			continue
 		}
 		for rel, a := range o.Actions {
+			if c.FixedHrefPrefix {
+				for _, mark := range []string{"/storage/", "/verify"} {
+					if i := strings.LastIndex(a.Href, mark); i >= 0 {
+						a.Href = s.URL + lfsPrefix + a.Href[i:]
+						break
+					}
+				}
+			}
 			if c.HrefQuery != "" {
 				if rel == "verify" {
 					a.Href += c.HrefQuery + "&rel=verify&o=" + o.Oid[:12]
@@ -251,6 +407,13 @@ func (s *c18srv) batchHook(fs *fakelfs.Server, breq *fakelfs.BatchRequest, resp 
 				}
 			} else if rel == "verify" {
 				a.Href += "?o=" + o.Oid[:12]
+			}
+			if c.PerRespHref {
+				sep := "?"
+				if strings.Contains(a.Href, "?") {
+					sep = "&"
+				}
+				a.Href += sep + "b=" + strconv.Itoa(idx)
 			}
 			hdr := map[string]string{}
 			for k, v := range a.Header {
@@ -283,13 +446,17 @@ func (s *c18srv) batchHook(fs *fakelfs.Server, breq *fakelfs.BatchRequest, resp 
 	}
 	nb, _ := json.Marshal(resp)
 	tree, _ := parseTree(nb)
+	if root, ok := tree.(map[string]interface{}); ok && trf == emptyTransfer {
+		root["transfer"] = "" // present but empty: no identifier named, the client is left with basic
+	}
 	body := s.finish("batch", tree)
-	s.logOffers(idx, breq.Operation, body)
+	s.logOffers(idx, breq, body)
 	return 200, body
 }
 
 // logOffers records the actions of a batch response exactly as sent.
-func (s *c18srv) logOffers(idx int, op string, body []byte) {
+func (s *c18srv) logOffers(idx int, breq *fakelfs.BatchRequest, body []byte) {
+	op := breq.Operation
 	tree, err := parseTree(body)
 	if err != nil {
 		return
@@ -303,8 +470,11 @@ func (s *c18srv) logOffers(idx int, op string, body []byte) {
 		bad = true
 	}
 	objs, _ := root["objects"].([]interface{})
+	named, _ := root["transfer"].(string)
+	proto := protocolOf(named, breq.Transfers)
 	s.mu.Lock()
 	defer s.mu.Unlock()
+	s.respTransfer[idx] = proto
 	if bad {
 		s.facts.BadAlgoSeen = true
 	}
@@ -322,7 +492,7 @@ func (s *c18srv) logOffers(idx int, op string, body []byte) {
 					continue
 				}
 				href, _ := am["href"].(string)
-				of := offered{RespSeq: idx, Oid: oid, Rel: rel, Href: href, Header: map[string]string{}, BadAlgo: bad, Op: op, HeaderOK: true}
+				of := offered{RespSeq: idx, Oid: oid, Rel: rel, Href: href, Header: map[string]string{}, BadAlgo: bad, Op: op, HeaderOK: true, Transfer: named, Proto: proto}
 				if h, present := am["header"]; present && h != nil {
 					hm, ok := h.(map[string]interface{})
 					if !ok {
@@ -511,7 +681,10 @@ func (s *c18srv) serveLocks(w http.ResponseWriter, r *http.Request, kind string,
 			Force bool `json:"force"`
 		}
 		json.Unmarshal(body, &dr)
-		p := strings.TrimSuffix(strings.TrimPrefix(r.URL.Path, lfsPrefix+"/locks/"), "/unlock")
+		p := strings.TrimSuffix(r.URL.Path, "/unlock")
+		if i := strings.Index(p, "/locks/"); i >= 0 {
+			p = p[i+len("/locks/"):]
+		}
 		found := -1
 		for i, l := range s.cfg.Locks {
 			if l.ID == p {
